@@ -71,9 +71,13 @@ Definition parse_chunk (r : record) : option bytes :=
 Definition parse_pad (r : record) : option pad :=
   match r_body r with BPad p => Some p | _ => None end.
 
-(* GetRecordError *)
+(* GetRecordError.  Two variants carry a record (whatever the answering holders sent): no read path
+   may hand its content to the caller. *)
 Inductive gerr :=
-| GNotEnoughCopies | GTimeout | GDoesNotMatch | GKindMismatch | GNotFound
+| GNotEnoughCopies (r : record)   (* NotEnoughCopies { record, .. }: carries the one version that was seen *)
+| GTimeout
+| GDoesNotMatch (r : record)      (* RecordDoesNotMatch(record) *)
+| GKindMismatch | GNotFound
 | GSplit (m : list record).       (* result_map.values() in the map's iteration order *)
 
 Inductive reply := ROk (r : record) | RErr (e : gerr).
@@ -156,7 +160,7 @@ Definition chunk_get (H : bytes -> N) (rp : reply) (addr : N) : bytes + cerr :=
           if k =? KIND_CHUNK then
             match parse_chunk r with
             | None => inr CDeser
-            | Some c => if H c =? addr then inl c else inr (CNet GDoesNotMatch)
+            | Some c => if H c =? addr then inl c else inr (CNet (GDoesNotMatch r))
             end
           else inr CKind
       end
@@ -233,8 +237,8 @@ Definition fetch_and_decrypt_vault (key : N) (rp : reply) (sk : N) : vres :=
 
 Definition gerr_code (e : gerr) : string :=
   match e with
-  | GNotEnoughCopies => "net:NotEnoughCopies" | GTimeout => "net:Timeout"
-  | GDoesNotMatch => "net:DoesNotMatch" | GKindMismatch => "net:KindMismatch"
+  | GNotEnoughCopies _ => "net:NotEnoughCopies" | GTimeout => "net:Timeout"
+  | GDoesNotMatch _ => "net:DoesNotMatch" | GKindMismatch => "net:KindMismatch"
   | GNotFound => "net:NotFound" | GSplit _ => "net:Split"
   end.
 
